@@ -285,6 +285,7 @@ TailPos == {self.tail}
   MaxBps = {maxbps}
   MaxBk = {maxbk}
   Lifecycle = {"TRUE" if lifecycle else "FALSE"}
+  Signals = {"TRUE" if getattr(self, "signals", False) else "FALSE"}
 """
         return d, cfg_common
 
